@@ -354,6 +354,8 @@ def run(key, prop, tier, seed, binary, wd):
                 continue
             rw = m["row"] if not isinstance(m["row"], str) else json.loads(m["row"])
             gk = (re.sub(r"_at_age_\d+|_age_\d+", "", m["field"]), str(m["exp"]), str(m["obs"]))
+            if kind == "c10":      # which presentation at which endpoint: a known finding names exactly one
+                gk = (m["field"], f"{m['exp']}/{m['obs']}", f"{rw.get('transport')}@{rw.get('endpoint')}")
             if kind == "c11":
                 gk = (m["field"], json.dumps(rw.get("front" if rw.get("par") else "req"), sort_keys=True), "")
             elif kind in ("c14", "c06hmac") and m["field"] in ("at_hash", "c_hash", "at_hash_absent", "c_hash_absent", "state_unchanged_after_refusal"):
